@@ -389,6 +389,13 @@ func Main(o Options) int {
 				bin = filepath.Join(o.VerifDir, ".bin", "verif-race")
 				env = append(os.Environ(), "GOMAXPROCS=8", "GORACE=halt_on_error=0 log_path="+filepath.Join(tmp, fmt.Sprintf("race%d", i)), "VERIF_RACE_LOG="+filepath.Join(tmp, fmt.Sprintf("race%d", i)))
 			}
+			// every temporary directory of the worker and of the processes it starts (worlds, replica
+			// databases, crash children that are killed before they can tidy up) lives under the
+			// run's own directory and goes away with the job
+			jobTmp := filepath.Join(tmp, fmt.Sprintf("t%d", i))
+			_ = os.MkdirAll(jobTmp, 0o755)
+			defer os.RemoveAll(jobTmp)
+			env = append(env, "TMPDIR="+jobTmp)
 			cmd := exec.Command(bin, "worker", string(jb), out)
 			lf, _ := os.Create(logf)
 			cmd.Stdout, cmd.Stderr = lf, lf
